@@ -1,6 +1,6 @@
 (** C17: specification and proofs about Model/SafeFS.v. *)
 From Coq Require Import List NArith Bool Lia.
-From AGH Require Import Base.Run Base.Bytes Base.PathClean Base.Glob Model.SafeFS.
+From AGH Require Import Base.Run Base.Bytes Base.PathClean Base.Glob Model.SafeFS Proofs.GlobCase.
 Import ListNotations.
 Local Open Scope N_scope.
 
@@ -13,6 +13,38 @@ Definition safe (pats : list bytes) (p : bytes) : Prop :=
 (** An event is what [reader] chose for its location under the configured
     patterns: every opening goes through the check. *)
 Definition ev_ok (w : world) (e : event) : Prop := snd e = reader (w_pats w) (fst e).
+
+(** The same, with the byte-exactness of the match spelled out (letter case
+    is significant): for a matching pattern without classes and escapes the
+    path is aligned with the pattern piece by piece -- every literal pattern
+    byte stands for exactly that byte -- and if the pattern has no upper-case
+    letter, no upper-case letter of the path lies in a literal position. *)
+Definition byte_exact (g p : bytes) : Prop :=
+  plain_pattern g = true ->
+  exists pieces, aligned g p pieces /\
+    (no_upper g = true ->
+     Forall (fun pc => is_lit (fst pc) = true -> no_upper (snd pc) = true) pieces).
+
+Definition safe_exact (pats : list bytes) (p : bytes) : Prop :=
+  exists g, In g pats /\ glob_match g p = GOk true /\ byte_exact g p /\
+            (forallb is_lit g = true -> p = g).
+
+Lemma match_byte_exact g p : glob_match g p = GOk true -> byte_exact g p.
+Proof.
+  intros Hm Hp. destruct (no_upper g) eqn:Hu.
+  - destruct (glob_case_exact _ _ Hp Hm Hu) as (ps & Ha & Hf). exists ps. auto.
+  - destruct (glob_match_aligned _ _ Hp Hm) as (ps & Ha). exists ps. split; [exact Ha|discriminate].
+Qed.
+
+Lemma safe_is_exact pats p : safe pats p -> safe_exact pats p.
+Proof.
+  intros (g & Hin & Hm). exists g. repeat split; auto.
+  - apply match_byte_exact, Hm.
+  - intros Hl. apply glob_literal_exact; assumption.
+Qed.
+
+Lemma safe_exact_safe pats p : safe_exact pats p -> safe pats p.
+Proof. intros (g & Hin & Hm & _). exists g. auto. Qed.
 
 (** * reader and validate_url *)
 
@@ -156,9 +188,55 @@ Proof.
   destruct (refresh_pass w (get_list st white)) as [[rs evs'] dead]. intros [= <- <- <-]. exact H.
 Qed.
 
+Lemma refresh_pass_sel_events w sel l : Forall (ev_ok w) (snd (fst (refresh_pass_sel w sel l))).
+Proof.
+  induction l as [|f r IH]; cbn [refresh_pass_sel]; [constructor|].
+  destruct (sel f).
+  - destruct (update w f) as [ev res] eqn:E.
+    assert (Hev : ev_ok w ev) by (change ev with (fst (ev, res)); rewrite <- E; apply update_ev_ok).
+    destruct (refresh_pass_sel w sel r) as [[rs evs] dead]. cbn in IH.
+    destruct res; cbn; try (constructor; [exact Hev|exact IH]).
+    constructor; [exact Hev|constructor].
+  - destruct (refresh_pass_sel w sel r) as [[rs evs] dead]. exact IH.
+Qed.
+
+(** Only selected entries are looked at. *)
+Lemma refresh_pass_sel_selected w sel l :
+  Forall (fun e => exists f, In f l /\ sel f = true /\ fst e = f_url f)
+         (snd (fst (refresh_pass_sel w sel l))).
+Proof.
+  induction l as [|f r IH]; cbn [refresh_pass_sel]; [constructor|].
+  assert (Hmono : forall evs : list event,
+            Forall (fun e => exists f, In f r /\ sel f = true /\ fst e = f_url f) evs ->
+            Forall (fun e => exists f0, In f0 (f :: r) /\ sel f0 = true /\ fst e = f_url f0) evs).
+  { intros evs H. eapply Forall_impl; [|exact H]. intros e (f0 & H1 & H2 & H3).
+    exists f0. split; [right; exact H1|auto]. }
+  destruct (sel f) eqn:Es.
+  - destruct (update w f) as [ev res] eqn:E.
+    assert (Hev : exists f0, In f0 (f :: r) /\ sel f0 = true /\ fst ev = f_url f0).
+    { exists f. split; [left; reflexivity|]. split; [exact Es|].
+      change ev with (fst (ev, res)). rewrite <- E. reflexivity. }
+    destruct (refresh_pass_sel w sel r) as [[rs evs] dead]. cbn in IH.
+    destruct res; cbn; try (constructor; [exact Hev|apply Hmono, IH]).
+    constructor; [exact Hev|constructor].
+  - destruct (refresh_pass_sel w sel r) as [[rs evs] dead]. cbn in *. apply Hmono, IH.
+Qed.
+
+Lemma periodic_events w st due st' s evs :
+  periodic w st due = (st', s, evs) -> Forall (ev_ok w) evs.
+Proof.
+  unfold periodic. pose proof (refresh_pass_sel_events w (is_due due) (s_block st)) as H1.
+  destruct (refresh_pass_sel w (is_due due) (s_block st)) as [[rs evs1] dead]. cbn in H1.
+  destruct dead; [intros [= <- <- <-]; exact H1|].
+  set (st1 := set_list st false _).
+  pose proof (refresh_pass_sel_events w (is_due due) (s_allow st1)) as H2.
+  destruct (refresh_pass_sel w (is_due due) (s_allow st1)) as [[rs2 evs2] dead2]. cbn in H2.
+  intros [= <- <- <-]. apply Forall_app. split; assumption.
+Qed.
+
 Lemma step_events w st o st' s evs : step w st o = (st', s, evs) -> Forall (ev_ok w) evs.
 Proof.
-  destruct o; cbn; [apply add_events|apply set_url_events|apply refresh_events].
+  destruct o; cbn; [apply add_events|apply set_url_events|apply refresh_events|apply periodic_events].
 Qed.
 
 Lemma run_events w ops : forall st,
@@ -178,18 +256,37 @@ Qed.
     and a configured pattern matches it. *)
 Theorem open_implies_safe w st ops s evs loc p :
   In (s, evs) (snd (run w st ops)) -> In (loc, OpenFile p) evs ->
-  is_abs loc = true /\ p = clean loc /\ safe (w_pats w) p.
+  is_abs loc = true /\ p = clean loc /\ safe (w_pats w) p /\ safe_exact (w_pats w) p.
 Proof.
   intros Hout Hev. pose proof (run_events w ops st) as H.
   rewrite Forall_forall in H. specialize (H _ Hout). cbn in H.
   rewrite Forall_forall in H. specialize (H _ Hev). unfold ev_ok in H. cbn in H.
-  symmetry in H. apply reader_open, H.
+  symmetry in H. apply reader_open in H as (H1 & H2 & H3).
+  repeat split; auto. apply safe_is_exact, H3.
+Qed.
+
+(** Letter case at the level of the single decision: a location whose cleaned
+    path has an upper-case letter is never opened under patterns that are all
+    literal and lower-case, and under any plain lower-case pattern only if the
+    letter lies where the pattern has a [*] or a [?]. *)
+Theorem reader_case_sensitive pats loc p :
+  reader pats loc = OpenFile p ->
+  exists g, In g pats /\ glob_match g p = GOk true /\ byte_exact g p /\
+            (forallb is_lit g = true -> p = g).
+Proof. intros H. apply reader_open in H as (_ & _ & Hs). apply safe_is_exact, Hs. Qed.
+
+Theorem literal_lower_patterns_no_upper pats loc p :
+  Forall (fun g => forallb is_lit g = true /\ no_upper g = true) pats ->
+  reader pats loc = OpenFile p -> no_upper p = true.
+Proof.
+  intros Hf H. destruct (reader_case_sensitive _ _ _ H) as (g & Hin & _ & _ & He).
+  rewrite Forall_forall in Hf. destruct (Hf _ Hin) as [Hl Hu]. rewrite (He Hl). exact Hu.
 Qed.
 
 Theorem no_patterns_no_file w st ops s evs loc p :
   w_pats w = [] -> In (s, evs) (snd (run w st ops)) -> ~ In (loc, OpenFile p) evs.
 Proof.
-  intros Hp Hout Hev. destruct (open_implies_safe _ _ _ _ _ _ _ Hout Hev) as (_ & _ & g & Hin & _).
+  intros Hp Hout Hev. destruct (open_implies_safe _ _ _ _ _ _ _ Hout Hev) as (_ & _ & (g & Hin & _) & _).
   rewrite Hp in Hin. exact Hin.
 Qed.
 
@@ -264,6 +361,37 @@ Proof.
     apply reader_unsafe; assumption.
 Qed.
 
+(** The periodic path (timer of updatesLoop, not forced): every location it
+    looks at goes through the same [reader] decision, only entries that are
+    enabled and due are looked at, and an entry with an absolute, unsafe
+    location is rejected, never opened. *)
+Theorem recheck_at_periodic w st due st' s evs loc src :
+  periodic w st due = (st', s, evs) -> In (loc, src) evs ->
+  src = reader (w_pats w) loc /\ In loc due /\
+  (is_abs loc = true -> ~ safe (w_pats w) (clean loc) -> exists k, src = Reject k).
+Proof.
+  intros Hp Hev. pose proof (periodic_events _ _ _ _ _ _ Hp) as H.
+  rewrite Forall_forall in H. specialize (H _ Hev). unfold ev_ok in H. cbn in H.
+  split; [exact H|]. split.
+  - unfold periodic in Hp.
+    pose proof (refresh_pass_sel_selected w (is_due due) (s_block st)) as H1.
+    destruct (refresh_pass_sel w (is_due due) (s_block st)) as [[rs evs1] dead]. cbn in H1.
+    assert (Hdue : forall l, Forall (fun e : event => exists f, In f l /\ is_due due f = true /\ fst e = f_url f) evs ->
+                   In loc due).
+    { intros l Hl. rewrite Forall_forall in Hl. destruct (Hl _ Hev) as (f & _ & Hs & Hu).
+      cbn in Hu. subst loc. unfold is_due in Hs. apply andb_true_iff in Hs as [_ Hs].
+      unfold mem_bytes in Hs. apply existsb_exists in Hs as (x & Hx & He).
+      apply eqb_bytes_eq in He. subst x. exact Hx. }
+    destruct dead; [injection Hp as _ _ <-; eapply Hdue, H1|].
+    set (st1 := set_list st false _) in Hp.
+    pose proof (refresh_pass_sel_selected w (is_due due) (s_allow st1)) as H2.
+    destruct (refresh_pass_sel w (is_due due) (s_allow st1)) as [[rs2 evs2] dead2]. cbn in H2.
+    injection Hp as _ _ <-. apply (Hdue (s_block st ++ s_allow st1)).
+    apply Forall_app. split; (eapply Forall_impl; [|eassumption]); intros e (f & Hi & Hr);
+      exists f; (split; [apply in_or_app; auto|exact Hr]).
+  - intros Ha Hn. subst src. apply reader_unsafe; assumption.
+Qed.
+
 (** * No traversal *)
 
 (** The opened path has no empty, "." or ".." element. *)
@@ -331,3 +459,32 @@ Qed.
 Example ex_dir_star_premise : forallb is_lit [47;115] = true /\
   reader [[47;115] ++ [sep; c_star]] ex_loc_in = OpenFile [47;115;47;97].
 Proof. split; reflexivity. Qed.
+
+(** Letter case: the premises are satisfiable, and the variants in another
+    letter case are rejected (computed). *)
+Definition ex_pats_case : list bytes := [[47;115;47;42;46;116]; [47;120;47;98]].      (* /s/*.t  /x/b *)
+Example ex_case_open : reader ex_pats_case [47;115;47;97;46;116] = OpenFile [47;115;47;97;46;116].  (* /s/a.t *)
+Proof. reflexivity. Qed.
+Example ex_case_star_upper : reader ex_pats_case [47;115;47;65;46;116] = OpenFile [47;115;47;65;46;116]. (* /s/A.t: under the star *)
+Proof. reflexivity. Qed.
+Example ex_case_dir_rejected : reader ex_pats_case [47;83;47;97;46;116] = Reject RUnsafe.   (* /S/a.t *)
+Proof. reflexivity. Qed.
+Example ex_case_ext_rejected : reader ex_pats_case [47;115;47;97;46;84] = Reject RUnsafe.   (* /s/a.T *)
+Proof. reflexivity. Qed.
+Example ex_case_exact_rejected : reader ex_pats_case [47;88;47;98] = Reject RUnsafe.        (* /X/b *)
+Proof. reflexivity. Qed.
+Example ex_literal_lower_premise :
+  Forall (fun g => forallb is_lit g = true /\ no_upper g = true) [[47;120;47;98]] /\
+  reader [[47;120;47;98]] [47;120;47;46;47;98] = OpenFile [47;120;47;98].
+Proof. split; [repeat constructor|reflexivity]. Qed.
+
+(** The periodic path on the planted example: the unsafe entry is due and
+    rejected, the safe one is not due and not looked at. *)
+Example ex_periodic :
+  snd (run ex_world {| s_block := s_block ex_planted ++
+                          [{| f_url := ex_loc_in; f_enabled := true; f_loaded := 0; f_sum := 0 |}];
+                       s_allow := [] |}
+           [OPeriodic [ex_loc_out]; OPeriodic [ex_loc_in]]) =
+  [(SOk 0, [(ex_loc_out, Reject RUnsafe)]);
+   (SOk 0, [(ex_loc_in, OpenFile [47;115;47;97])])].
+Proof. reflexivity. Qed.
